@@ -32,6 +32,7 @@ type env struct {
 
 	ids   idAlloc
 	warmN atomic.Uint32
+	upSeq atomic.Uint32
 
 	// answerWait bounds the wait for an answer that the documentation
 	// promises; it is only ever followed by a retry, never by a verdict.
